@@ -946,3 +946,65 @@ def gen_rtu_task_c06(rng, thorough=False):
                 scs.append(rtu_task_scenario(len(scs), [1, 2], steps, (5, 40), True, seed=11, decode=rng.choice(DECODES),
                                              tag=f"rtutask-c06-bytecount-{name}-{bc:#x}-unit{unit}"))
     return scs
+
+
+# ------------------------------------------------------------------ black-box serial slice (pseudo-terminal, no hook)
+def gen_pty_server(rng, thorough=False):
+    """traffic that never ends an RTU session (valid CRC, delimitable function codes): unit discipline, broadcast,
+    exceptions, maximum-size frames -- on a real serial device opened by tokio_serial with various settings"""
+    scs = []
+    # only settings under which the line is transparent for 8-bit data: seven data bits or software flow control
+    # (XON/XOFF bytes are swallowed by the line discipline) change the byte stream itself and say nothing about rodbus
+    settings = [(9600, ["Eight", "None", "None", "One"]), (19200, ["Eight", "None", "Even", "Two"]),
+                (115200, ["Eight", "None", "Odd", "One"]), (1200, ["Eight", "None", "None", "Two"])]
+    maps = [[1, 2], [3, 17, 200], [0, 5], [247]]
+    for k, units in enumerate(maps if thorough else maps[:3]):
+        baud, st = settings[k % len(settings)]
+        steps = []
+        pdus = []
+        uids = sorted(set(units + [0, 9, 255] + [rng.randrange(256) for _ in range(3)]))
+        for u in uids:
+            cands = [req_read(rng.choice([1, 2, 3, 4]), 5, 3), req_wsr(6, u * 3 + 1), req_wmc(4, [True, False, True]),
+                     req_read(3, 98, 5), req_read(1, 0, 2001), req_wsc(1, True, raw=0x1234), req_wmr(0, [rng.randrange(65536) for _ in range(123)]),
+                     req_read(3, 0, 125), req_read(1, 7, 2000)]
+            for p in rng.sample(cands, 4 if not thorough else len(cands)):
+                if not rtu_delimitable(p):
+                    continue
+                pdus.append(p)
+                f = rtu(u, p)
+                if rng.random() < 0.25 and len(f) > 4:
+                    cut = rng.randrange(1, len(f))
+                    steps += [rx(f[:cut]), rx(f[cut:])]
+                else:
+                    steps.append(rx(f))
+        for u in units:
+            if u != 0:
+                steps.append(rx(rtu(u, req_read(3, 4, 4))))
+                steps.append(rx(rtu(u, req_read(1, 3, 5))))
+        if rng.random() < 0.5:
+            steps.insert(len(steps) // 2, {"op": "decode", "level": rng.choice(DECODES)})
+        sc = scenario(len(scs), "rtu", units, steps, seed=rng.randrange(100), decode=rng.choice(DECODES),
+                      holes=[{"u": u, "t": 2, "a": 100, "code": 4} for u in units], tag=f"pty-server-units{units}-{baud}-{'-'.join(st)}")
+        sc["settings"] = st
+        sc["baud"] = baud
+        scs.append(sc)
+    return scs
+
+
+def check_pty_server(res, scs, workdir, name):
+    by_id = {s["id"]: s for s in scs}
+    os.makedirs(workdir, exist_ok=True)
+    sp = os.path.join(workdir, f"{name}.scripts.ndjson")
+    tp = os.path.join(workdir, f"{name}.trace.ndjson")
+    with open(sp, "w") as f:
+        for s in scs:
+            f.write(json.dumps(s) + "\n")
+    rc, out = vf.sh([vf.harness_bin("e3_pty"), sp, tp], timeout=3600)
+    if rc not in (0, 3):
+        raise vf.ToolError(f"e3_pty failed rc={rc}:\n{out[-3000:]}")
+    stats, rejs = vf.validate_trace(MODULE, CFG, tp, workdir)
+    res.add_trace_stats(name, stats, {"harness_exit": rc, "transport": "pseudo-terminal (tokio_serial)"})
+    res.evaluations += len(scs)
+    for s in scs:
+        res.distinct.add(vf.sha(json.dumps(s["steps"])[:4000] + str(s["units"]) + "pty"))
+    return [(by_id.get(r["scenario_head"].get("id")), r) for r in rejs]
